@@ -24,7 +24,9 @@ func main() {
 	in := flag.String("in", "", "replay file")
 	n := flag.Int("n", 1000, "volume parameter for node/fn/codec/mem/race/gc modes")
 	sub := flag.String("sub", "", "sub-mode")
+	mp := flag.Bool("multipass", false, "range over most sequence values several times")
 	flag.Parse()
+	multipass = *mp
 
 	var w *bufio.Writer
 	if *out == "-" {
